@@ -2,11 +2,24 @@
 import gen_gin as G
 import gen_stmts as S
 import gindom
-from gindom import to_driver, compare  # noqa: F401
+
+
+def to_driver(case, impl):
+  if case.get('dom') == 'dyn':
+    from props import c19
+    return c19.to_driver(case, impl)
+  return gindom.to_driver(case, impl)
+
+
+def compare(case, impl, model):
+  if case.get('dom') == 'dyn':
+    from props import c19
+    return c19.compare(case, impl, model)
+  return gindom.compare(case, impl, model)
 
 ID = 'C15'
 DOMAIN = 'gin/stmts'
-PROPS_FILES = ['Gin/Props/C15.lean']
+PROPS_FILES = ['Gin/Props/C15.lean', 'Gin/Props/C15b.lean']
 ANCHOR_FILES = ['config.py']
 RULE = ('2-3 registered probes and 2-3 unknown names; a text of 3-10 statements mixing bindings and blocks of known and '
         'unknown targets, references to known and unknown configurables inside applied bindings and inside macros, '
@@ -202,13 +215,100 @@ def _decycle(val, known, allowed, no_macros=False):
   return val
 
 
+# ------------------------------------------------------------------ dynamic registration
+def gen_dyn_case(rng):
+  """A file under dynamic registration (imports in every form, bindings through several spellings, references -
+  the C19 generator) with unknown names mixed in: targets no import provides, attributes that do not exist, a
+  missing module, as bindings, blocks and references; parsed with every form of skip_unknown. "Known" is what
+  resolves through the file's own imports."""
+  from props import c19
+  w, _ = c19.get_world()
+  c19.VIA.clear()
+  for _ in range(50):
+    body = c19.gen_file(rng, w, 0, {}, {})
+    binds = [st for st in body if st.get('k') in ('bind', 'bindref')]
+    if not c19.any_expect(body) and binds and not any(st.get('k') == 'unit' for st in body):
+      break
+  else:
+    return None
+  symtab = next(st['_symtab'] for st in body if st.get('k') == 'nop')
+  syms = sorted(symtab)
+  first_stmt = next(i for i, st in enumerate(body) if st.get('k') in ('bind', 'bindref'))
+  unknown_sels = [['zz', 'q'], ['nosuchsym', 'f']] + [[sy, 'no_such_attr'] for sy in syms[:2]] + \
+      [[sy, 'no_such_attr', 'deeper'] for sy in syms[:1]]
+  sk = rng.choice(['no', 'all', 'all', 'names', 'names', 'names'])
+  skip = {'k': sk}
+  if sk == 'names':
+    named = [list(u) for u in rng.sample(unknown_sels, rng.randint(1, len(unknown_sels)))]
+    if rng.random() < 0.4:   # naming a known name does not make it unknown
+      named.append(list(rng.choice(binds)['sel']))
+    skip = {'k': 'names', 'v': named, '_type': rng.choice(['list', 'tuple', 'set'])}
+
+  def covered(sel):
+    return sk == 'all' or (sk == 'names' and list(sel) in skip['v'])
+
+  def err_of(sel):
+    return 'NameError' if sel[0] not in symtab else 'AttributeError'
+  groups = {}
+  nins = rng.randint(1, 4)
+  for _ in range(nins):
+    pos = rng.randint(first_stmt, len(body) - 1)     # before the trailing `nop`; groups stay contiguous
+    u = list(rng.choice(unknown_sels))
+    kind = rng.choice(['bind', 'bind', 'block', 'ref', 'import'])
+    new = []
+    if kind == 'bind':
+      new = [{'k': 'bind', 'sel': u, 'arg': 'x', 'v': rng.randint(1, 9), '_target': None}]
+    elif kind == 'block':
+      new = [{'k': 'block', 'sel': u, '_target': None},
+             {'k': 'bind', 'sel': u, 'arg': 'x', 'v': 1, '_target': None, '_inblock': True}]
+      if rng.random() < 0.5:
+        new.append({'k': 'bind', 'sel': u, 'arg': 'y', 'v': 2, '_target': None, '_inblock': True})
+    elif kind == 'ref':
+      h = rng.choice(binds)
+      new = [{'k': 'bindref', 'sel': list(h['sel']), 'arg': h['arg'], 'ref': u, '_target': h['_target'],
+              '_reftarget': None, 'scope': rng.choice([0, 0, 1])}]
+      if h.get('_class') is not None:
+        new[0].update(_class=h['_class'], _method=h.get('_method'))
+    else:
+      new = [{'k': 'imp', 'module': ['no_such_pkg_xyz'] + (['sub'] if rng.random() < 0.3 else []), 'from': False,
+              'alias': None, '_missing': True}]
+    for st in new:
+      if st['k'] == 'imp':
+        if sk == 'no':
+          st['_expect'] = 'ImportError'
+        else:
+          st['_skipped'] = True
+      elif st['k'] == 'bindref':
+        if covered(st['ref']):
+          st['_placeholder'] = True
+        else:
+          st['_expect'] = err_of(st['ref'])
+      elif covered(st['sel']):
+        st['_skipped'] = True
+      else:
+        st['_expect'] = err_of(st['sel'])
+    groups.setdefault(pos, []).extend(new)
+  out = []
+  for i, st in enumerate(body):
+    out.extend(groups.get(i, []))
+    out.append(st)
+  return {'dom': 'dyn', 'units': [out], 'skip': skip, '_dyn15': True}
+
+
 def gen_cases(rng, tier, boost=1):
   n = (600 if tier == 'quick' else 20000) * boost
   for _ in range(n):
     yield gen_case(rng)
+  for _ in range((250 if tier == 'quick' else 8000) * boost):
+    c = gen_dyn_case(rng)
+    if c is not None:
+      yield c
 
 
 def run_impl(case):
+  if case.get('dom') == 'dyn':
+    from props import c19
+    return c19.run_impl(case)
   out = gindom.run_impl(case)
   regs = [o for o in case['ops'] if o['op'] == 'register']
   fresh = gindom.run_impl({'dom': 'gin', 'ops': regs + [
@@ -228,6 +328,17 @@ def _has_placeholder(x):
 
 
 def oracle(case, impl):
+  if case.get('dom') == 'dyn':
+    from props import c19
+    c19.norm_case(case)
+    want, err = c19.intended(case)
+    if impl['err'] != err:
+      return (f'skip_unknown={case["skip"]} under dynamic registration: expected outcome {err}, implementation gave '
+              f'{impl["err"]} ({impl.get("err_msg")})\n{impl["texts"][0]}')
+    if impl['bindings'] != want:
+      return (f'skip_unknown={case["skip"]} under dynamic registration: deleting the statements that target unknown names '
+              f'gives {want}, the registered configurables hold {impl["bindings"]}\n{impl["texts"][0]}')
+    return None
   n = case['_nregs']
   res, cfg, imports = impl['out'][n], impl['out'][n + 1], impl['out'][n + 2]
   fr = impl['fresh']
@@ -255,6 +366,8 @@ def oracle(case, impl):
 
 
 def nontrivial(case, impl):
+  if case.get('dom') == 'dyn':
+    return True
   n = case['_nregs']
   stmts = case['ops'][n]['stmts']
   applied = len(case['_reduced_stmts'])
@@ -262,6 +375,10 @@ def nontrivial(case, impl):
 
 
 def tally(stats, case, impl):
+  if case.get('dom') == 'dyn':
+    k = 'dyn:skip:' + case['skip']['k'] + ':' + str(impl['err'])
+    stats[k] = stats.get(k, 0) + 1
+    return
   k = 'skip:' + case['_skip']['k'] + (':' + case['_skip'].get('_type', '') if case['_skip']['k'] == 'names' else '')
   stats[k] = stats.get(k, 0) + 1
   res = impl['out'][case['_nregs']]
